@@ -118,6 +118,14 @@ def build(seed):
         elif any(os.path.basename(r).lower() == os.path.basename(rel).lower() for r in files):
             tags.add("file_basenames_differ_only_in_case")
         files[rel] = "\n".join(L) + "\n"
+    # entities whose own names look like the numbered duplicates of others (dup_2, dup2, dup-2 is no identifier)
+    if rng.random() < 0.5:
+        tags.add("name_like_numbered_duplicate")
+        L = [f"module numbered{sx}", doc(), "implicit none", "contains"]
+        for n in rng.sample([f"{b}{sep}{k}" for b in shared for sep in ("_", "") for k in (2, 3)], 4):
+            L += [f"subroutine {n}(x)", doc(), "integer, intent(in) :: x", f"end subroutine {n}"]
+        L.append(f"end module numbered{sx}")
+        files[f"numbered{sx}.f90"] = "\n".join(L) + "\n"
     # a generic interface extended, under the same name, in a module that uses the first one
     if rng.random() < 0.5:
         tags.add("generic_extended_in_using_module")
